@@ -1,7 +1,7 @@
 """C13  Async caches behave like their reference cache for every call history.
 
-Histories of calls (every spelling of the same arguments: positional / keyword / default / keyword-only, plus a small
-malformed stream), bodies that block on a batch or raise or return a value that refers to the instance, custom key
+Histories of calls (every spelling of the same arguments: positional / keyword / default / keyword-only / overflow into
+*rest, plus a small malformed stream), bodies that block on a batch or raise or return a value that refers to the instance, custom key
 functions, maxsize 1-4, several instances with instance drop, dirty() and ttl expiry on a scripted clock - run on the
 real alru_cache / acached_per_instance / alazy_constant.  The Lean model (AsynqModel.Lib.Cache: qcore's LRUCache,
 get_args_tuple and get_kwargs_defaults and the three wrappers, branch for branch, with the argument-name lists AS
@@ -24,8 +24,9 @@ import random
 PID = "C13"
 LEVEL = "proof"
 LEAN_MODULES = ["AsynqModel.Theorems.C13", "AsynqModel.Theorems.C13b"]
-# the claimed theorems (audited with #print axioms by the proof gate); one line each in MANIFEST.json / DESIGN.md 5
-THEOREMS = [
+# the claimed theorems (audited with #print axioms by the proof gate); one line each in MANIFEST.json / DESIGN.md 5.
+# HEADLINE: statements about alru_cache / acached_per_instance / alazy_constant with content of their own.
+HEADLINE = [
     "AsynqModel.Cache.C13_key_normal",
     "AsynqModel.Cache.C13_key_injective",
     "AsynqModel.Cache.C13_alru_key_normal",
@@ -42,20 +43,31 @@ THEOREMS = [
     "AsynqModel.Cache.C13_lazy_dirty_once",
     "AsynqModel.Cache.C13_lazy_ttl_once",
     "AsynqModel.Cache.C13_lazy_raise_not_cached",
-    # families: ONE decorator object applied to several functions (Theorems/C13b.lean)
+    # families (Theorems/C13b.lean) with content of their own: a drop is seen by EVERY method's dict and a value cached by
+    # one method keeps the entries of all methods alive; ONE clock for all constants of a decorator object
+    "AsynqModel.Cache.C13_per_instance_shared_decorator_refines_partial",
+    "AsynqModel.Cache.C13_per_instance_family_leak_counterexample",
+    "AsynqModel.Cache.C13_lazy_shared_decorator_refines",
+    # every hypothesis of the theorems above is needed (machine-checked witnesses on the model)
+    "AsynqModel.Cache.C13_alru_callOK_needed",
+    "AsynqModel.Cache.C13_per_instance_callOK_needed",
+    "AsynqModel.Cache.C13_alru_maxsize_pos_needed",
+    "AsynqModel.Cache.C13_alru_eviction_hyps_needed",
+    "AsynqModel.Cache.C13_lazy_clock_pos_needed",
+    "AsynqModel.Cache.C13_lazy_step_hyps_needed",
+    "AsynqModel.Cache.C13_per_instance_family_nfn_needed",
+]
+# BY CONSTRUCTION: the alru_cache family model is the product of single-function models (`Alru.Fam.observe := setAt ..`),
+# so these four are the single-function theorems lifted - they hold for ANY per-function step (audit 2, N12).  What they
+# are meant to say ("the cache is built in decorator(fn), once per function, not in alru_cache(..)") is established by the
+# correspondence check on families, not by them.  Audited with #print axioms, counted apart by tools/gen_status.py.
+BY_CONSTRUCTION = [
     "AsynqModel.Cache.C13_alru_shared_decorator_refines",
     "AsynqModel.Cache.C13_alru_shared_decorator_refines_keyfn",
     "AsynqModel.Cache.C13_alru_family_projection",
     "AsynqModel.Cache.C13_alru_family_size_le_maxsize",
-    "AsynqModel.Cache.C13_per_instance_shared_decorator_refines_partial",
-    "AsynqModel.Cache.C13_per_instance_family_leak_counterexample",
-    "AsynqModel.Cache.C13_lazy_shared_decorator_refines",
-    # every hypothesis of the refinement theorems is needed (witnesses on the model)
-    "AsynqModel.Cache.C13_alru_callOK_needed",
-    "AsynqModel.Cache.C13_per_instance_callOK_needed",
-    "AsynqModel.Cache.C13_alru_maxsize_pos_needed",
-    "AsynqModel.Cache.C13_lazy_clock_pos_needed",
 ]
+THEOREMS = HEADLINE + BY_CONSTRUCTION
 # NOT claimed: they hold by unfolding one `step` of the model (they document the model; their content is the
 # correspondence check).  Compiled with LEAN_MODULES, not counted as property theorems.
 STEP_LEMMAS = [
@@ -68,7 +80,9 @@ STEP_LEMMAS = [
 BUILDS = {"quick": ["py"], "thorough": ["py", "cy"]}
 CASE_TIMEOUT = 20
 RULE = ("three streams. alru: signature (0-3 positional-or-keyword parameters with 0-n trailing defaults, 0-2 keyword-only "
-        "parameters with/without default) x maxsize 1-4 x key function (default / const / sumParity / raw) x history of "
+        "parameters with/without default; 12% of the signatures also collect further positional arguments (*rest), half of "
+        "those get a keyword-only parameter if they have none; 45% of the calls of such a function pass 1-2 positional "
+        "arguments that overflow into *rest) x maxsize 1-4 x key function (default / const / sumParity / raw) x history of "
         "1-30 calls drawn from a pool of 2-5 bindings over values 0-3, each call spelled at random (how many positional, "
         "keywords in random order, defaults omitted or passed, 40% of default-key cases all-positional), 5% malformed "
         "(missing required argument, unexpected keyword); 2% of the default-key and per-instance cases also contain "
@@ -92,7 +106,9 @@ RULE = ("three streams. alru: signature (0-3 positional-or-keyword parameters wi
         "(8%); decorator arguments positional (30%) or omitted; 8% of the cases switch a silent debug option "
         "(COLLECT_PERF_STATS, KEEP_DEPENDENCIES, ENABLE_COMPLEX_ASSERTIONS) in mid-history; 12% of the per-instance cases use "
         "a copy.copy()/deepcopy() of an instance as a further instance; odd instance tokens are instances of a subclass. "
-        "Exhaustive cores: every 4-call history over 2 functions x 2 keys x maxsize 1-2, every 3-call history over f(a, b=0) / "
+        "Exhaustive cores: every 3-call history over 6 spellings of f(a, *rest, k=0) (alru_cache and acached_per_instance: "
+        "f(1, 2) / f(1, k=2) / f(1, 2, k=2) / f(1, 2, 0) ..) and over 5 spellings of g(a, *rest); "
+        "every 4-call history over 2 functions x 2 keys x maxsize 1-2, every 3-call history over f(a, b=0) / "
         "g(a, *, k=0) under one decorator object (default key and one shared key_fn), every 3-operation (thorough: 4) "
         "per-instance history over 2 methods x 2 instances with drops and a self-referring value, every 4-operation history "
         "over 2 lazy constants; every 3-call history over entry points sync/.asyncio()/yielded-under-.asyncio() x 3 spellings "
@@ -123,9 +139,18 @@ ASSUMPTIONS = [
     "there); errors are Exception subclasses, yielded values plain (outside C15's open findings)",
     "values are tuples (10% of them a falsy tuple subclass); a body that returns None is not generated (the harness "
     "identifies a returned value by identity)",
-    "wrapped functions have no *args/**kwargs; argument values are hashable and compared by ==",
+    "wrapped functions may have *rest (modelled: Sig.varargs) but have no **kwargs and no positional-only parameters; "
+    "argument values are hashable and compared by ==. For a function with *rest AND keyword-only parameters the property "
+    "is FALSE of both decorators as they are: a call whose positional arguments overflow into *rest gets the key of "
+    "another VALID call (f(1, 2) and f(1, k=2) share an entry for def f(a, *rest, k=0); the keyword-only argument of an "
+    "overflowing call is ignored altogether) - C13_alru_varargs_counterexample, C13_per_instance_varargs_counterexample, "
+    "hypothesis alruVarargsOK / perInstVarargsOK of the `_partial` theorems, reported by the check as an open finding",
+    "with **kwargs or positional-only parameters qcore's get_args_tuple has further collisions of the same family, all "
+    "of them between a valid call and a call Python cannot bind (g(1, 2) cached, then g(a=1, b=2) for def g(a, /, b=0) is "
+    "answered from the cache instead of raising TypeError; h(1, x=2) then h(1, ('x', 2)) for def h(a, **kw)): the class of "
+    "the next item, not generated",
     "calls Python cannot bind are covered when an argument is missing or a keyword is unexpected (TypeError, nothing "
-    "runs). A call that passes too many positionals or one parameter twice is OUTSIDE the property: it has no "
+    "runs). A call that passes too many positionals (to a function without *rest) or one parameter twice is OUTSIDE the property: it has no "
     "normalised arguments, and qcore's get_args_tuple maps it onto the key of a valid call, so it is answered from the "
     "cache when that call is cached and raises TypeError when it is not (reproduced on the real code; hypothesis "
     "alruCallOK / perInstCallOK of the refinement theorems, needed: C13_alru_callOK_needed, "
@@ -134,6 +159,8 @@ ASSUMPTIONS = [
     "scripted clock starts >= 1 and never goes backwards (refresh_time == 0 is alazy_constant's 'never computed' mark; "
     "needed: C13_lazy_clock_pos_needed)",
     "the number of per-instance entries is read from __acached_per_instance_cache__ (the attribute the library's own tests use)",
+    "bodies block on a batch (harness batch or asynq's DebugBatchItem) or on the event loop; this is a property of the "
+    "generator only - the model's operations are completed calls",
     "a cached value may refer to its instance (this is where the property is FALSE of acached_per_instance as it is: "
     "C13_per_instance_leak_counterexample); other routes by which a value could keep an instance alive (a value that "
     "refers to ANOTHER instance of the class, instances without __dict__) are not generated",
@@ -158,7 +185,13 @@ def gen_sig(rng, method=False, allow_empty=True):
     kwd = [[n, rng.choice([0, 1, 3])] for n in kwonly if rng.random() < 0.5]
     if npos + nkw == 0:
         return gen_sig(rng, method, allow_empty)
-    return {"args": (["self"] if method else []) + pos, "defaults": defaults, "kwonly": kwonly, "kwd": kwd}
+    sig = {"args": (["self"] if method else []) + pos, "defaults": defaults, "kwonly": kwonly, "kwd": kwd}
+    if rng.random() < 0.12:
+        # def f(a, b=0, *rest, k=0): the function collects further positional arguments
+        sig["varargs"] = 1
+        if rng.random() < 0.5 and not kwonly:
+            sig["kwonly"], sig["kwd"] = ["k"], [["k", rng.choice([0, 1, 3])]] if rng.random() < 0.7 else []
+    return sig
 
 
 def sig_params(sig):
@@ -175,12 +208,13 @@ def sig_params(sig):
     return res
 
 
-def spell(rng, sig, binding, allpos=False):
-    """one valid way of writing the call whose parameters have the values `binding`"""
+def spell(rng, sig, binding, allpos=False, rest=None):
+    """one valid way of writing the call whose parameters have the values `binding` (and whose *rest is `rest`: then
+    every positional-or-keyword parameter is passed positionally)"""
     params = sig_params(sig)
     npos = len([p for p in params if not p[2]])
-    p = npos if allpos else rng.randint(0, npos)
-    args = list(binding[:p])
+    p = npos if (allpos or rest) else rng.randint(0, npos)
+    args = list(binding[:p]) + list(rest or [])
     kw = []
     for (n, d, ko), v in list(zip(params, binding))[p:]:
         if d is not None and d == v and rng.random() < 0.6 and not (allpos and not ko):
@@ -212,7 +246,7 @@ def malform(rng, sig, args, kw):
         if cand_kw:
             x = rng.choice(cand_kw)
             return args, [y for y in kw if y is not x]
-        if args and given_pos[len(args) - 1] in required:
+        if args and len(args) <= len(names_pos) and given_pos[len(args) - 1] in required:
             return args[:-1], kw
     return args, kw + [["q", rng.randint(0, 1)]]
 
@@ -223,11 +257,13 @@ def unbindable(rng, sig, args, kw):
     params = sig_params(sig)
     names_pos = [n for n, d, ko in params if not ko]
     kwonly = [n for n, d, ko in params if ko]
+    if len(args) > len(names_pos):
+        args = args[:len(names_pos)]      # (a call that overflows into *rest: cut the overflow)
     if args and rng.random() < 0.5:
         # one parameter twice: a positional one repeated as a keyword
         n = names_pos[rng.randrange(len(args))]
         return args, [x for x in kw if x[0] != n] + [[n, rng.randint(0, 1)]]
-    if kwonly:
+    if kwonly and not sig.get("varargs"):
         # too many positionals: the keyword-only parameters passed positionally
         vals = dict((k, v) for k, v in kw)
         allv = []
@@ -288,7 +324,10 @@ def gen_call(rng, sig, pool, inst=0, allpos=False, malformed_rate=0.05, lazy=Fal
         op["dur"] = rng.choice([0, 0, 1, 3, 7])
         return op
     b = rng.choice(pool)
-    args, kw = spell(rng, sig, b, allpos)
+    rest = None
+    if sig.get("varargs") and rng.random() < 0.45:
+        rest = rng.choice([[0], [1], [2], [3], [1, 2], [0, 0]])      # positional arguments that overflow into *rest
+    args, kw = spell(rng, sig, b, allpos, rest)
     if rng.random() < malformed_rate:
         args, kw = malform(rng, sig, args, kw)
     elif unbindable_rate and rng.random() < unbindable_rate:
@@ -499,7 +538,25 @@ def exhaustive_core(tier):
             if sum(1 for o in h if o["op"] == "call") < 2:
                 continue
             cases.append({"cache": "lazy", "ttl": ttl, "t0": 1, "ops": [dict(o) for o in h]})
-    return cases + family_core(tier) + asyncio_core(tier) + big_core() + recur_core(tier)
+    return cases + varargs_core() + family_core(tier) + asyncio_core(tier) + big_core() + recur_core(tier)
+
+
+def varargs_core():
+    """functions that collect further positional arguments: every 3-call history over the spellings of
+    f(a, *rest, k=0) / m(self, a, *rest, k=0) (where the default key conflates f(1, 2) and f(1, k=2): the open finding)
+    and of g(a, *rest) (no keyword-only parameter: the key is right, overflow included)"""
+    cases = []
+    vsig = {"args": ["a"], "defaults": [], "kwonly": ["k"], "kwd": [["k", 0]], "varargs": 1}
+    vmsig = dict(vsig, args=["self", "a"])
+    vsp = [([1], []), ([1, 2], []), ([1], [["k", 2]]), ([1, 2], [["k", 2]]), ([], [["a", 1]]), ([1, 2, 0], [])]
+    for h in itertools.product(vsp, repeat=3):
+        cases.append({"cache": "alru", "maxsize": 2, "keyspec": "default", "sig": vsig, "ops": [_call(a, k) for a, k in h]})
+        cases.append({"cache": "perinst", "sig": vmsig, "ops": [_call(a, k, inst=i % 2) for i, (a, k) in enumerate(h)]})
+    gsig = {"args": ["a"], "defaults": [], "kwonly": [], "kwd": [], "varargs": 1}
+    gsp = [([1], []), ([1, 2], []), ([1, 2, 3], []), ([], [["a", 1]]), ([2], [])]
+    for h in itertools.product(gsp, repeat=3):
+        cases.append({"cache": "alru", "maxsize": 2, "keyspec": "default", "sig": gsig, "ops": [_call(a, k) for a, k in h]})
+    return cases
 
 
 def recur_core(tier):
@@ -692,11 +749,17 @@ def signature(case, v):
     must not depend on dimensions the defect does not need: the shrunk case in the replay file shows which of them -
     several functions, asyncio mode, asyncio_fn - it does need).  The driver appends `+cached-value-refers-to-instance`
     when the clause is `instances`, a body of the case returns a value that refers to its instance and the observations
-    are exactly those of the model of the code as it is (the closure dict keeps such an instance and its entry alive):
-    one defect, one signature, and every other way of getting the number of entries wrong keeps its own."""
+    are exactly those of the model of the code as it is (the closure dict keeps such an instance and its entry alive),
+    and `+varargs-overflow-read-as-keyword-only` when the clause is `foreign-value`, the case contains a call whose
+    positional arguments overflow into the *rest of a function with keyword-only parameters and the observations are
+    exactly those of the model of the code as it is: one defect, one signature, and every other way of getting the
+    number of entries wrong / of returning a foreign value keeps its own."""
     spec = v["spec"]
     if spec == "fail:instances+cached-value-refers-to-instance":
         return "perinst/cached-value-referring-to-its-instance-is-never-released"
+    if spec == "fail:foreign-value+varargs-overflow-read-as-keyword-only":
+        # one root cause (the argument-name list `args + kwonlyargs` omits *rest) in both decorators: one signature
+        return "default-key/positional-overflow-into-varargs-read-as-keyword-only/wrong-value"
     return "%s/%s/%s" % (case["cache"], case.get("keyspec", "-"), spec)
 
 
@@ -711,11 +774,12 @@ class UserErr(Exception):
 
 
 def _sig_wire(sig):
-    return "((%s) (%s) (%s) (%s))" % (
+    return "((%s) (%s) (%s) (%s) %d)" % (
         " ".join(str(NAMES[a]) for a in sig["args"]),
         " ".join(str(d) for d in sig["defaults"]),
         " ".join(str(NAMES[k]) for k in sig["kwonly"]),
         " ".join("(%d %d)" % (NAMES[k], v) for k, v in sig["kwd"]),
+        1 if sig.get("varargs") else 0,
     )
 
 
@@ -726,8 +790,11 @@ def _params_source(sig):
     for i, n in enumerate(args):
         j = i - (len(args) - nd)
         params.append("%s=%d" % (n, sig["defaults"][j]) if j >= 0 else n)
+    if sig.get("varargs"):
+        params.append("*rest")
     if sig["kwonly"]:
-        params.append("*")
+        if not sig.get("varargs"):
+            params.append("*")
         kwd = dict((k, v) for k, v in sig["kwd"])
         for n in sig["kwonly"]:
             params.append("%s=%d" % (n, kwd[n]) if n in kwd else n)
@@ -740,9 +807,10 @@ def _body_source(sig, f=0):
     call on to `_inner`); all of them report the arguments they RECEIVED"""
     args = sig["args"]
     params = _params_source(sig)
-    received = [a for a in args if a != "self"] + list(sig["kwonly"])
+    star = ["*rest"] if sig.get("varargs") else []
+    received = [a for a in args if a != "self"] + list(sig["kwonly"]) + star     # (a, b, k, *rest): named first, flattened
     recv = "(%s)%s" % ("".join(r + ", " for r in received), ", self" if "self" in args else "")
-    fwd = ", ".join(list(args) + ["%s=%s" % (k, k) for k in sig["kwonly"]])
+    fwd = ", ".join(list(args) + star + ["%s=%s" % (k, k) for k in sig["kwonly"]])
     return ("def body(%s):\n    return (yield from _impl(%d, %s))\n"
             "async def native(%s):\n    return await _aimpl(%d, %s)\n"
             "def proxy(%s):\n    return _inner.asynq(%s)\n") % (params, f, recv, params, f, recv, params, fwd)
@@ -1142,7 +1210,12 @@ def run_case(case):
                     if any(k in sig["kwonly"] for k, _ in op["kw"]):
                         feats.append("spelling=keyword-only")
                     names_pos = [a for a in sig["args"] if a != "self"]
-                    if len(op["args"]) > len(names_pos) or any(k in names_pos[:len(op["args"])] for k, _ in op["kw"]):
+                    if sig.get("varargs"):
+                        feats.append("signature-with-*rest")
+                        if len(op["args"]) > len(names_pos):
+                            feats.append("call-overflows-into-*rest" + ("(+keyword-only-parameters)" if sig["kwonly"] else ""))
+                    if (len(op["args"]) > len(names_pos) and not sig.get("varargs")) or \
+                            any(k in names_pos[:len(op["args"])] for k, _ in op["kw"]):
                         feats.append("unbindable-call(too-many-positionals/duplicate: correspondence only)")
                         if res.startswith("(ok"):
                             feats.append("unbindable-call-answered-from-cache")
